@@ -73,6 +73,7 @@ def cmd_check(prop, tier, args):
 
     findings = load_known_findings()
     new_violations = []      # (signature, replay path, what)
+    unreproducible = []
     known_hits = {}          # signature -> [entry, count]
     unshrunk = 0
     per_key = {}
@@ -105,6 +106,12 @@ def cmd_check(prop, tier, args):
                     seq = what_rep
                     mh, mr, n = seq[-1], kernel.run_sequence(mod, seq), len(seq)
             except HarnessError as e:
+                if "did not reproduce" in str(e):
+                    # e.g. a violation that hangs on which memory address a new object happens to get: it
+                    # is not reported (nothing without a replay is), and it is not forgotten - if no other
+                    # violating run of the batch reproduces either, the batch ends as a harness error
+                    unreproducible.append("%s (run_seed=%s)" % (e, s["seed"]))
+                    continue
                 print("HARNESS-ERROR %s (run_seed=%s)" % (e, s["seed"]))
                 return EXIT_HARNESS
             shrink_execs += n
@@ -128,6 +135,12 @@ def cmd_check(prop, tier, args):
                 return EXIT_HARNESS
             new_violations.append((sig, path, what))
 
+    if unreproducible and not new_violations:
+        for u in unreproducible[:5]:
+            print("HARNESS-ERROR %s" % u)
+        return EXIT_HARNESS
+    for u in unreproducible[:5]:
+        print("  (not reported, no replay: %s)" % u)
     for sig, (ent, cnt) in sorted(known_hits.items()):
         print("KNOWN-FINDING: property=%s %s [signature: %s; hit in %d minimised runs]" %
               (prop, ent.get("what", ""), sig, cnt))
